@@ -167,3 +167,10 @@ func VerifC20SetEvictionInterval(d time.Duration) time.Duration {
 
 // VerifC20Config returns the sanitized configuration the pool runs with.
 func (pool *TxPool) VerifC20Config() TxPoolConfig { return pool.config }
+
+// VerifC20RequestReset issues a reset request exactly as loop() does for a ChainHeadEvent and returns the channel that
+// is closed when the reorg run serving it has finished (no waiting here: several requests can be queued behind a
+// running reorg so that scheduleReorgLoop has to coalesce them).
+func (pool *TxPool) VerifC20RequestReset(oldHead, newHead *types.Header) chan struct{} {
+	return pool.requestReset(oldHead, newHead)
+}
